@@ -160,6 +160,12 @@ def unescape(body, pos):
 
 
 class FxParser(IoParser):
+    def expect(self, text):
+        # `self.x = e` as the last statement of a function body without its `;`
+        if text == ";" and self.peek().kind == "eof":
+            return self.peek()
+        return IoParser.expect(self, text)
+
     def primary(self, no_struct):
         x = self.peek()
         if x.kind == "char":
@@ -315,6 +321,10 @@ class FxFn(IoFn):
                         j += 1
                     j += 1
                 return BYTES, j
+            if name in self.structs and self.structs[name].get("tuple"):
+                if toks[j].text == "<":
+                    _, j = self._targs(toks, j)
+                return ("tuple", [self.parse_ty(ft) for _, ft in self.structs[name]["fields"]]), j
             if name == "Error" and len(path) >= 2 and path[-2] == "io":
                 return ("ioerr",), j
             if name in self.enums:
@@ -576,6 +586,9 @@ class FxFn(IoFn):
             if "\\" in e.text:
                 self.err("string literal with escapes as a value", e)
             return k(e.text, ("strlit",), env)
+        if kd == "var" and e.name == "self" and "self" not in env and self.spec.get("self_fields"):
+            fs = [env["self." + f[0]] for f in self.spec["self_fields"]]
+            return k(io_tuple([v.lean for v in fs]), ("tuple", [v.ty for v in fs]), env)
         if kd == "var" and e.name not in env:
             sn = self.split_of(e.name, env)
             if sn is not None:
@@ -685,6 +698,17 @@ class FxFn(IoFn):
     def struct_lit(self, e, env, k):
         if e.name == "Self":
             e = N("struct", e.pos, name=self.spec["name"].split("::")[0], fields=e.fields)
+        name = e.name.split("::")[-1]
+        sd = self.structs.get(name)
+        if sd is not None and sd.get("tuple"):
+            # a struct of the spec that is represented by the tuple of its fields (in the pinned field order)
+            given = dict(e.fields)
+            want_names = [f for f, _ in sd["fields"]]
+            if sorted(given) != sorted(want_names):
+                self.err("struct literal `%s` has fields %s, the spec expects %s" % (name, ",".join(given), ",".join(want_names)), e)
+            wants = [self.parse_ty(ft) for _, ft in sd["fields"]]
+            return self.ev_list([given[f] for f in want_names], env,
+                                lambda vs, e2: k(io_tuple([v for v, _ in vs]), ("tuple", wants), e2), wants)
         return IoFn.struct_lit(self, e, env, k)
 
     def need_op(self, name, node):
@@ -1450,6 +1474,8 @@ def _translate_unit(src, unit, fail):
             if n != 1:
                 fail("%s: the declaration `%s` the translation spec relies on occurs %d times (fields added, removed or retyped)"
                      % (rel, " ".join(sd["pinned"].split())[:80], n))
+        if sd.get("tuple"):
+            continue
         tr = FxFn(unit, dict(lean="_", params=[], name="_"), src_all, "", 0)
         txt.append("structure %s where" % sname)
         for fn_, ft in sd["fields"]:
@@ -1501,8 +1527,32 @@ FA_RD = ["readLine", "trimEnd", "splitWs"]
 unit(name="SrcFasta", props="property C11", file="src/io/fasta.rs", dialect="fx",
      generics={"Rd": "ρ", "Wr": "ω"}, io_ops=RD_OPS, split_structs=["Record"],
      io_structs={"Record": dict(fields=FA_REC,
-                                pinned="pub struct Record { id: String, desc: Option<String>, seq: String, }")},
+                                pinned="pub struct Record { id: String, desc: Option<String>, seq: String, }"),
+                 "Reader": dict(tuple=True, fields=[("reader", "Rd"), ("line", "String")],
+                                pinned="pub struct Reader<B> { reader: B, line: String, }"),
+                 "Records": dict(tuple=True, fields=[("reader", "Reader"), ("error_has_occured", "bool")],
+                                 pinned="pub struct Records<B> where B: io::BufRead, { reader: Reader<B>, error_has_occured: bool, }"),
+                 "Writer": dict(tuple=True, fields=[("writer", "Wr"), ("linewrap", "Option<usize>")],
+                                pinned="pub struct Writer<W: io::Write> { writer: io::BufWriter<W>, linewrap: Option<usize>, }")},
      functions=[
+         dict(name="Reader::from_bufread", lean="readerFromBufread", static=True,
+              header="pub fn from_bufread(bufreader: B) -> Self", self_fields=[], params=[("bufreader", "Rd")],
+              ret="Reader", outs=[], ops=[], theorem="RbV.Thm.GenSrcFasta.ctors_eq"),
+         dict(name="Reader::records", lean="readerRecords", header="pub fn records(self) -> Records<B>",
+              self_fields=[("reader", "Rd"), ("line", "String")], params=[], ret="Records", outs=[], ops=[]),
+         dict(name="Writer::from_bufwriter", lean="writerFromBufwriter", static=True,
+              header="pub fn from_bufwriter(bufwriter: io::BufWriter<W>) -> Self", self_fields=[],
+              params=[("bufwriter", "Wr")], ret="Writer", outs=[], ops=[]),
+         dict(name="Writer::set_linewrap", lean="writerSetLinewrap",
+              header="pub fn set_linewrap(&mut self, linewrap: Option<usize>)",
+              self_fields=[("linewrap", "Option<usize>")], params=[("linewrap", "Option<usize>")],
+              outs=["self.linewrap"], ops=[]),
+         dict(name="Record::id", lean="recordId", header="pub fn id(&self) -> &str", after="impl Record",
+              self_fields=FA_REC, params=[], ret="&str", outs=[], ops=[]),
+         dict(name="Record::desc", lean="recordDesc", header="pub fn desc(&self) -> Option<&str>", after="impl Record",
+              self_fields=FA_REC, params=[], ret="Option<&str>", outs=[], ops=[]),
+         dict(name="Record::seq", lean="recordSeq", header="pub fn seq(&self) -> TextSlice<'_>", after="impl Record",
+              self_fields=FA_REC, params=[], ret="TextSlice<'_>", outs=[], ops=[]),
          dict(name="Writer::write_record_header", lean="writeRecordHeader",
               header="pub fn write_record_header(&mut self, id: &str, desc: Option<&str>) -> io::Result<()>",
               self_fields=[("writer", "Wr")], params=[("id", "&str"), ("desc", "Option<&str>")],
@@ -1514,6 +1564,11 @@ unit(name="SrcFasta", props="property C11", file="src/io/fasta.rs", dialect="fx"
               params=[("id", "&str"), ("desc", "Option<&str>"), ("seq", "TextSlice<'_>")],
               ret="io::Result<()>", outs=["self.writer"], ops=["writeAll"], siblings=["write_record_header"],
               theorem="RbV.Thm.GenSrcFasta.write_eq_model"),
+         dict(name="Writer::write_record", lean="writeRecord",
+              header="pub fn write_record(&mut self, record: &Record) -> io::Result<()>",
+              self_fields=[("writer", "Wr"), ("linewrap", "Option<usize>")], params=[("record", "&Record")],
+              ret="io::Result<()>", outs=["self.writer"], ops=["writeAll"], siblings=["write", "id", "desc", "seq"],
+              theorem="RbV.Thm.GenSrcFasta.writeRecord_eq_model"),
          dict(name="Record::new", lean="recordNew", static=True, header="pub fn new() -> Self",
               after="impl Record", self_fields=[], params=[], ret="Record", outs=[], ops=[]),
          dict(name="Record::clear", lean="recordClear", header="fn clear(&mut self)", after="impl Record",
@@ -1543,8 +1598,22 @@ unit(name="SrcFastq", props="property C11", file="src/io/fastq.rs", dialect="fx"
      io_enums={"Error": dict(variants=[("MissingAt", []), ("ReadError", ["io::Error"]), ("IncompleteRecord", [])],
                              from_io="ReadError")},
      io_structs={"Record": dict(fields=FQ_REC,
-                                pinned="pub struct Record { id: String, desc: Option<String>, seq: String, qual: String, }")},
+                                pinned="pub struct Record { id: String, desc: Option<String>, seq: String, qual: String, }"),
+                 "Reader": dict(tuple=True, fields=[("reader", "Rd"), ("line_buffer", "String")],
+                                pinned="pub struct Reader<B> { reader: B, line_buffer: String, }"),
+                 "Records": dict(tuple=True, fields=[("reader", "Reader")],
+                                 pinned="pub struct Records<R: io::Read> { reader: Reader<R>, }"),
+                 "Writer": dict(tuple=True, fields=[("writer", "Wr")],
+                                pinned="pub struct Writer<W: io::Write> { writer: io::BufWriter<W>, }")},
      functions=[
+         dict(name="Reader::from_bufread", lean="readerFromBufread", static=True,
+              header="pub fn from_bufread(bufreader: B) -> Self", self_fields=[], params=[("bufreader", "Rd")],
+              ret="Reader", outs=[], ops=[], theorem="RbV.Thm.GenSrcFastq.ctors_eq"),
+         dict(name="Reader::records", lean="readerRecords", header="pub fn records(self) -> Records<B>",
+              self_fields=[("reader", "Rd"), ("line_buffer", "String")], params=[], ret="Records", outs=[], ops=[]),
+         dict(name="Writer::from_bufwriter", lean="writerFromBufwriter", static=True,
+              header="pub fn from_bufwriter(bufwriter: io::BufWriter<W>) -> Self", self_fields=[],
+              params=[("bufwriter", "Wr")], ret="Writer", outs=[], ops=[]),
          dict(name="Writer::write", lean="write",
               header="pub fn write( &mut self, id: &str, desc: Option<&str>, seq: TextSlice<'_>, qual: &[u8], ) -> io::Result<()>",
               self_fields=[("writer", "Wr")],
@@ -1563,6 +1632,14 @@ unit(name="SrcFastq", props="property C11", file="src/io/fastq.rs", dialect="fx"
               self_fields=FQ_REC, params=[], ret="TextSlice<'_>", outs=[], ops=["trimEnd"]),
          dict(name="Record::qual", lean="recordQual", header="pub fn qual(&self) -> &[u8]", after="impl Record",
               self_fields=FQ_REC, params=[], ret="&[u8]", outs=[], ops=["trimEnd"]),
+         dict(name="Record::desc", lean="recordDesc", header="pub fn desc(&self) -> Option<&str>", after="impl Record",
+              self_fields=FQ_REC, params=[], ret="Option<&str>", outs=[], ops=[]),
+         dict(name="Writer::write_record", lean="writeRecord",
+              header="pub fn write_record(&mut self, record: &Record) -> io::Result<()>",
+              self_fields=[("writer", "Wr")], params=[("record", "&Record")],
+              ret="io::Result<()>", outs=["self.writer"], ops=["writeAll", "trimEnd"],
+              siblings=["write", "id", "desc", "seq", "qual"],
+              theorem="RbV.Thm.GenSrcFastq.writeRecord_eq_model"),
          dict(name="Record::check", lean="recordCheck", header="pub fn check(&self) -> Result<(), &str>", after="impl Record",
               self_fields=FQ_REC, params=[], ret="Result<(), &str>", outs=[], ops=["trimEnd"], siblings=["id", "seq", "qual"],
               theorem="RbV.Thm.GenSrcFastq.check_eq_model"),
